@@ -17,7 +17,7 @@ mod d_common;
 use celestia_proto::proof::pb::Proof as RawProof;
 use celestia_proto::share::eds::byzantine::pb::{BadEncoding as RawBefp, Share as RawBefpShare};
 use celestia_types::fraud_proof::{BadEncodingFraudProof, FraudProof};
-use celestia_types::nmt::{NS_SIZE, Namespace, NamespaceProof};
+use celestia_types::nmt::{NS_SIZE, Namespace, NamespaceProof, NamespacedHash, NamespacedHashExt, Nmt, NmtExt};
 use celestia_types::test_utils::ExtendedHeaderGenerator;
 use celestia_types::{AxisType, DataAvailabilityHeader, ExtendedDataSquare};
 use d2_common::*;
@@ -318,6 +318,49 @@ impl C07 {
     }
 }
 
+impl C07 {
+    /// a DAH wider than the codec supports (512): only row `idx` is a real tree (512 parity leaves); the proof carries
+    /// 256 shares of it with honest same-axis proofs.  Nothing can be re-encoded, so nothing may be "proven".
+    fn gen_wide(&mut self, rng: &mut Rng, out: &mut Emitter) {
+        let w = 512usize;
+        let idx = rng.usize(0, w - 1);
+        let leaves: Vec<Vec<u8>> = (0..w).map(|_| rng.bytes(SHARE)).collect();
+        let mut nmt = Nmt::default();
+        for l in &leaves {
+            nmt.push_leaf(l, *Namespace::PARITY_SHARE).unwrap();
+        }
+        let root = nmt.root();
+        let dummy = NamespacedHash::from_raw(&d_common::random_node(rng)).unwrap();
+        let mut rows = vec![dummy.clone(); w];
+        rows[idx] = root;
+        let dah = DataAvailabilityHeader::new_unchecked(rows, vec![dummy; w]);
+        let present = random_subset(rng, w, w / 2);
+        let shares: Vec<RawBefpShare> = (0..w)
+            .map(|i| {
+                if !present[i] {
+                    return absent();
+                }
+                let (share, proof) = nmt.get_index_with_proof(i);
+                let proof: NamespaceProof = d_common::NmtNamespaceProof::PresenceProof { proof, ignore_max_ns: true }.into();
+                let mut data = Namespace::PARITY_SHARE.as_bytes().to_vec();
+                data.extend_from_slice(&share);
+                RawBefpShare { data, proof: Some(proof.into()), proof_axis: 0 }
+            })
+            .collect();
+        let mut l = format!(
+            "{} hh={HH} {} height={HH} index={idx} axis=0 axisdata={} axpar=- honest=0 rec=- par=-",
+            self.opname,
+            roots_fields(&dah),
+            hxl(&leaves)
+        );
+        for s in &shares {
+            l.push(' ');
+            l.push_str(&share_word(s));
+        }
+        out.op(l, "wider-than-codec/half-proven", true);
+    }
+}
+
 impl Prop for C07 {
     fn id(&self) -> &'static str {
         "C07"
@@ -339,6 +382,7 @@ impl Prop for C07 {
                 self.gen_square(rng, w, out);
             }
         }
+        self.gen_wide(rng, out);
     }
     fn run(&mut self, line: &str) -> String {
         match opname(line) {
